@@ -5,7 +5,8 @@ from vmon.refsem import INDEX_SYMBOLS, capacity, classify, digits_for
 
 EXTRA_ATOMS = ['CH1', 'CH2', 'NH1', 'C@', 'C@@', 'C@H1', 'C@@H1', '13C', 'Si', 'Fe+2',
                'OH0', 'N@+1', 'SH1', 'PH1', '14CH2-1', 'Xe-2', 'B-1', 'S+1', 'P@@', 'Se',
-               'N+1', 'O-1', 'C-1', '2H', 'Sn', 'As', 'CH3', 'NH3+1', 'Zr', 'I+2', 'CH0']
+               'N+1', 'O-1', 'C-1', '2H', 'Sn', 'As', 'CH3', 'NH3+1', 'Zr', 'I+2', 'CH0',
+               '0Fe', 'Fe', '00C@@H1', '0N+1', '013C', '0Si', '000Se', '0CH2', '02H', '0B-1']
 JUNK = ['[Xx]', '[Branch9]', '[CH9]', '[]', '[ring1]', '[C+0]', '[=Ring4]', '[Cexpl]',
         '[Branch1_1]', '[c]', '[C@@@]', '[CH12]', '[#Branch0]', '[-Ring1]', '[Ring]']
 RING_STEREO = ['-/', '-\\', '/-', '\\-', '//', '/\\', '\\/', '\\\\']
